@@ -476,6 +476,96 @@ impl Prop for UciLines {
     }
 }
 
+
+// ------------------------------------------- the `position` command's library path, in process
+
+/// `position fen <canonical FEN of a legal position with extreme counters> moves <legal moves>`:
+/// the FEN reader, the coordinate resolver and the move application must get through it without
+/// panicking in any build profile (the counters are "huge numbers", the rest is well formed).
+#[derive(Debug, Clone, Serialize, Deserialize)]
+pub struct PositionCase {
+    pub build: BuildCase,
+    pub half: u16,
+    pub full: u16,
+    pub picks: Vec<u16>,
+}
+
+const EXTREME: [u64; 10] = [0, 99, 100, 65_535, 4_294_967_295, 4_294_967_296, (1 << 63) - 1, 1 << 63, u64::MAX - 1, u64::MAX];
+
+pub struct PositionCommand;
+
+impl Prop for PositionCommand {
+    type Case = PositionCase;
+    fn name(&self) -> &'static str {
+        "position_command_in_process"
+    }
+    fn strategy(&self, _: &Ctx) -> BoxedStrategy<PositionCase> {
+        (gen::build_strategy(10), any::<u16>(), any::<u16>(), prop::collection::vec(any::<u16>(), 0..6))
+            .prop_map(|(build, half, full, picks)| PositionCase { build, half, full, picks })
+            .boxed()
+    }
+    fn test(&self, _: &Ctx, case: &PositionCase, loc: &mut Local) -> Result<(), String> {
+        let Some(mut p) = gen::build(&case.build) else { return Ok(()) };
+        p.half = EXTREME[pick_index(case.half, EXTREME.len())];
+        p.full = EXTREME[pick_index(case.full, EXTREME.len())];
+        // legal moves chosen by the oracle (its own clocks wrap harmlessly: only the squares are used)
+        let mut tokens: Vec<String> = vec![];
+        let mut cur = p.clone();
+        cur.half = 0;
+        cur.full = 1;
+        for pk in case.picks.iter() {
+            let legal = cur.legal();
+            if legal.is_empty() {
+                break;
+            }
+            let (m, n) = gen::choose(&cur, &legal, *pk).clone();
+            tokens.push(m.lan());
+            cur = n;
+        }
+        let fen = p.fen();
+        loc.eval();
+        let line = format!("position fen {} moves {}", fen, tokens.join(" "));
+        let r = std::panic::catch_unwind(|| {
+            let Ok(state) = try_from_notation::<State, Fen>(&fen) else { return Err("the canonical FEN was rejected".to_string()) };
+            // the same construction as the UCI loop
+            let mut queries = vec![];
+            for t in tokens.iter() {
+                let (Some(a), Some(b)) = (t.get(0..2), t.get(2..4)) else { return Err(format!("token {}", t)) };
+                let (Ok(o), Ok(d)) = (weechess_core::Square::try_from(a), weechess_core::Square::try_from(b)) else { return Err(format!("token {}", t)) };
+                let mut q = MoveQuery::by_moving_from_to(o, d);
+                if let Some(c) = t.chars().nth(4) {
+                    q.set_promotion(match c {
+                        'q' => weechess_core::Piece::Queen,
+                        'r' => weechess_core::Piece::Rook,
+                        'b' => weechess_core::Piece::Bishop,
+                        _ => weechess_core::Piece::Knight,
+                    });
+                }
+                queries.push(q);
+            }
+            match State::by_performing_moves(&state, &queries) {
+                Ok(_) => Ok(()),
+                Err(e) => Err(format!("the legal move list was rejected: {}", e)),
+            }
+        });
+        match r {
+            Err(panic) => Err(format!("handling the line '{}' panicked: {}", line, crate::runner::panic_message(&panic))),
+            Ok(Err(m)) => Err(format!("handling the line '{}': {}", line, m)),
+            Ok(Ok(())) => {
+                if p.half > 100 || p.full > 100 {
+                    loc.nontrivial(&line);
+                    loc.class("huge_counter");
+                }
+                if !tokens.is_empty() {
+                    loc.class("with_moves");
+                }
+                loc.sample(|| json!({"line": line}));
+                Ok(())
+            }
+        }
+    }
+}
+
 // ------------------------------------------------------------------ plain release build
 
 /// Re-runs the two in-process parser checks in the plain release build of the harness
@@ -537,6 +627,7 @@ pub fn plain_child(ctx: &Ctx) -> i32 {
     let cases: u64 = std::env::var("VERIF_PLAIN_CASES").ok().and_then(|s| s.parse().ok()).unwrap_or(10_000);
     FenStrings.run(ctx, cases);
     SanStrings.run(ctx, cases);
+    PositionCommand.run(ctx, cases / 4);
     let (evals, violations) = ctx.plain_summary();
     println!("PLAIN-SUMMARY {}", json!({"evaluations": evals, "violations": violations}));
     0
@@ -548,6 +639,7 @@ pub fn plan(ctx: &Ctx) -> Plan {
         props: vec![
             (Box::new(FenStrings), t.pick(400_000, 10_000_000)),
             (Box::new(SanStrings), t.pick(1_000_000, 30_000_000)),
+            (Box::new(PositionCommand), t.pick(200_000, 5_000_000)),
             (Box::new(PlainBuild), t.pick(300_000, 5_000_000)),
             (Box::new(UciLines), t.pick(300, 10_000)),
             (Box::new(crate::fuzzdrv::target("parsers_raw")), t.pick(0, 60_000)),
@@ -558,7 +650,9 @@ pub fn plan(ctx: &Ctx) -> Plan {
                digits inside the placement, over-long ranks, 7 or 9 ranks, extreme and non-ASCII counters, truncation); \
                strings over the FEN alphabet and a loose FEN-shaped regex; arbitrary Unicode; 100 kB repetitions. SAN: \
                admissible spellings from the oracle writer with 0-3 mutations, strings over the SAN alphabet, arbitrary \
-               Unicode. Each call must return Ok or Err under catch_unwind, in the checked build (debug assertions and \
+               Unicode. The library path of `position fen F moves ...` (FEN reader, coordinate resolver, move application) is \
+               run in process on canonical FENs of legal positions with extreme counters (up to 2^64-1) and legal move \
+               lists. Each call must return Ok or Err under catch_unwind, in the checked build (debug assertions and \
                overflow checks on) and, in a child process, in the plain release build. UCI: sessions of 1-7 malformed \
                lines (position startpos moves + truncated/over-long/multi-byte tokens, position fen + mutated FEN, go with \
                bad numbers, odd position shapes, unknown/blank/1 MB lines); after every line isready must be answered with \
